@@ -249,6 +249,29 @@ def search(res, tier, seed, deep=False):
             src = ds[2] if kind == "Debiaser" else ds[0]
             if src["msk"] == "invalid" and not np.any(np.isnan(out)):
                 report("masked-not-nan", inp, None, "masked cells must reach the debiaser as NaN")
+    # output warnings in serial AND parallel execution (real debiasers; the probe class cannot be pickled): a missing value in
+    # the input reaches the output, and a value outside the variable's range is produced
+    import ibicus.debias as D
+    for name in ["LinearScaling", "DeltaChange"]:
+        for par in (False, True):
+            with warnings.catch_warnings():
+                warnings.simplefilter("ignore")
+                d = getattr(D, name).from_variable("tas")
+            mk3 = lambda n, s_: (280 + s_ + np.sin(np.arange(n) / 58.0) * 8).reshape(n, 1, 1) + np.zeros((1, 2, 1))
+            o, h, f = mk3(60, 0.0), mk3(60, 1.0), mk3(60, 2.0)
+            (o if name == "DeltaChange" else f)[5, 0, 0] = np.nan          # propagates to the output
+            (o if name == "DeltaChange" else f)[7, 1, 0] = 1000.0            # far outside the range of tas (K)
+            with warnings.catch_warnings(record=True) as w_:
+                warnings.simplefilter("always")
+                try:
+                    d.apply(o, h, f, progressbar=False, parallel=par, nr_processes=2); got = "ok"
+                except Exception as e:
+                    got = "other:" + type(e).__name__
+            kinds_ = {classify(str(x.message)) for x in w_}
+            res.case(("output-warnings", name, par))
+            if got != "ok" or "W_out_nonfinite" not in kinds_ or "W_out_range" not in kinds_:
+                report("output-warning-missing:%s:%s" % (name, "parallel" if par else "serial"), dict(kind="output", debiaser=name, parallel=par), [got, sorted(k for k in kinds_ if k)],
+                       "NaN and out-of-range values in the OUTPUT must produce warnings, in serial and in parallel execution")
     # time arrays that do not match the series lengths (window mode), all real debiasers
     import ibicus.debias as D
     for name in ["LinearScaling", "DeltaChange", "QuantileMapping", "ScaledDistributionMapping", "CDFt", "ECDFM", "QuantileDeltaMapping", "ISIMIP"]:
@@ -259,18 +282,20 @@ def search(res, tier, seed, deep=False):
         nO, nH, nF = 400, 380, 420
         mk = lambda n, s: (280 + s + np.sin(np.arange(n) / 58.0) * 8 + (np.arange(n) * 7919 % 13) / 5.0).reshape(n, 1, 1)
         t = lambda n: create_array_of_consecutive_dates(n)
-        for pos in range(3):
+        for pos, omitted in [(p_, o_) for p_ in range(3) for o_ in (None, (p_ + 1) % 3, (p_ + 2) % 3)]:
             lens = [nO, nH, nF]; lens[pos] -= 1 + pos
             kw = dict(time_obs=t(lens[0]), time_cm_hist=t(lens[1]), time_cm_future=t(lens[2]))
+            if omitted is not None:       # one of the OTHER time arrays left out (it is then inferred): the given one is still checked
+                kw[["time_obs", "time_cm_hist", "time_cm_future"][omitted]] = None
             with warnings.catch_warnings():
                 warnings.simplefilter("ignore")
                 try:
                     d.apply(mk(nO, 0), mk(nH, 1), mk(nF, 2), progressbar=False, **kw); got = "ok"
                 except ValueError: got = "E_Value"
                 except Exception as e: got = "other:" + type(e).__name__
-            res.case(("time-mismatch", name, pos))
+            res.case(("time-mismatch", name, pos, omitted))
             if got != "E_Value":
-                report("time-mismatch:" + name, dict(kind="time", debiaser=name, position=pos), got, "time arrays not matching the series lengths must raise ValueError")
+                report("time-mismatch:" + name, dict(kind="time", debiaser=name, position=pos, omitted_time_array=omitted), got, "time arrays not matching the series lengths must raise ValueError")
         # differing time lengths are accepted
         kw = dict(time_obs=t(nO), time_cm_hist=t(nH), time_cm_future=t(nF))
         with warnings.catch_warnings():
